@@ -52,4 +52,5 @@ Export ==
             [a |-> SetToSeq(ts[i]), b |-> SetToSeq(ts[j])]])
 N1 == <<"x", "y">>
 N2 == <<"x">>
+N2big == <<"x", "y">>
 =============================================================================
